@@ -449,7 +449,10 @@ def _strip_chars(interp, s, chars, left, right):
         return s
     cls = z3.Union(*[z3.Re(z3.StringVal(c)) for c in chars]) if len(chars) > 1 else z3.Re(z3.StringVal(chars))
     a = p.str('strip_l', register=False)
-    r = p.str('strip_m', register=False)
+    # the result is a function of (s, chars, side): an uninterpreted function constrained by the defining facts,
+    # so that stripping the same string twice yields the same term
+    F = z3.Function(f'strip[{chars!r},{int(left)}{int(right)}]', z3.StringSort(), z3.StringSort())
+    r = SymStr(F(s.term))
     b = p.str('strip_r', register=False)
     p.assume(SymBool(s.term == z3.Concat(a.term, r.term, b.term)))
     if left:
